@@ -1,5 +1,5 @@
 (* Props/C06.v -- C06: labels/@here = origin + bytes emitted; output = the emitted bytes in order. *)
-From Az65 Require Import Base Token Expr ExprParse Linker Asm AsmFacts Arch ArchTables Run ArchFacts.
+From Az65 Require Import Base Token Expr ExprParse Linker LinkerFacts LinkOutFacts Asm AsmFacts Arch ArchTables Run ArchFacts.
 
 (* For every architecture, every statement arm and every state: one statement
      - only appends bytes to the output image (it never rewrites or removes earlier bytes),
@@ -35,6 +35,28 @@ Proof.
            (fun id s0 s1 Ha => arch_parse_appends _ _ _ _ Ha) fuel s s' H)).
 Qed.
 Print Assumptions C06_image_only_grows.
+
+(* the link step: for every symbol table, reference list, list of deferred links and image, linking keeps the
+   image's length and rewrites only the bytes a deferred link covers (1 for a byte / branch, 2 for a word, n for
+   a fill, none for an assertion); every other byte that is written out is the byte that was placed. *)
+Theorem C06_link_frame :
+  forall st refs (ls : list link) (d d' : list N),
+    link_all st refs ls d = Ok d' ->
+    length d' = length d /\
+    forall i, (forall l, In l ls -> ~ covers l i) -> nth_error d' i = nth_error d i.
+Proof. exact link_all_frame. Qed.
+Print Assumptions C06_link_frame.
+
+(* TRANSLATOR TIE: src/linker.rs, re-read on every run, hands the linked image over with exactly one
+   `writer.write_all(&self.data)` placed after the loop over the links (Gen/LinkArms.v). *)
+Theorem C06_output_is_whole_image : Az65.Gen.LinkArms.gen_link_output_is_write_all = true.
+Proof. exact generated_output_is_write_all. Qed.
+Print Assumptions C06_output_is_whole_image.
+
+(* non-vacuity: a word patched into the middle of an image; the bytes around it are untouched *)
+Example C06_link_example :
+  link_all [] [] [{| l_kind := LWord; l_off := 1; l_expr := [NValue 4660] |}] [9; 0; 0; 7]%N = Ok [9; 52; 18; 7]%N.
+Proof. vm_compute. reflexivity. Qed.
 
 (* non-vacuity: the statement that used to break it (padding in an ADDR segment) *)
 Example C06_align_in_addr :
